@@ -18,6 +18,12 @@ def replay(path):
         bad = [x for x in rep.violations if x["driver"] == driver]
         print(f"replay {path}: model check {driver} {'VIOLATED' if bad else 'ok'}")
         return 1 if bad else 0
+    if driver not in getattr(mod, "DRIVERS", {}):
+        # drivers without a single-scenario entry point (e.g. the behaviour replay of C05): re-run the quick check
+        rep = mod.run("quick", 0)
+        bad = [x for x in rep.violations if x["driver"] == driver]
+        print(f"replay {path}: driver {driver} re-run as part of the quick check: {'VIOLATION property=%s replay=%s' % (pid, path) if bad else 'no violation'}")
+        return 1 if bad else 0
     fn_mod, fn_name, spec, family = mod.DRIVERS[driver]
     env = getattr(mod, "ENV", None)
     traces = pmap(fn_mod, fn_name, [sc], procs=1, env=env)
